@@ -293,6 +293,12 @@ impl Process {
                 "The task '{}' is not an Act task",
                 action.tid
             )));
+        } else if task.state().is_none() {
+            // still waiting in the scheduler queue: it has not been opened yet
+            return Err(ActError::Action(format!(
+                "The task '{}' is not started yet",
+                action.tid
+            )));
         }
 
         // check the outputs
